@@ -66,15 +66,16 @@ Print Assumptions C17_find_protoclusters_is_C03.
 
 (* ---- candidate formation, member order: `_ordered` applied to a set of protoclusters with
    single-part locations returns the same list for every enumeration of the set, unless two
-   protoclusters share coordinates AND product ... *)
+   protoclusters share coordinates AND product AND core start/end (prekey = (product, core_start,
+   core_end), the pre-sort key since the repair of same_product_equal_coordinates_member_order) ... *)
 Theorem C17_formation_members_perm_partial : forall g g',
   Forall simple g -> Permutation g g' ->
-  (forall a b, In a g -> In b g -> pkey a = pkey b -> C05.Model.pprod a = C05.Model.pprod b -> a = b) ->
+  (forall a b, In a g -> In b g -> pkey a = pkey b -> prekey a = prekey b -> a = b) ->
   C05.Model.ordered_list g = C05.Model.ordered_list g'.
 Proof. exact ordered_perm_proof. Qed.
 Print Assumptions C17_formation_members_perm_partial.
 
-(* ... namely the arrangement ordered by (start, -length), ties by product *)
+(* ... namely the arrangement ordered by (start, -length), ties by (product, core start, core end) *)
 Theorem C17_formation_members_sorted : forall g, Forall simple g ->
   Permutation (C05.Model.ordered_list g) g /\ wsorted (lex_lt lexpp prod_lt) (C05.Model.ordered_list g).
 Proof. exact ordered_sorted_proof. Qed.
@@ -89,24 +90,39 @@ Theorem C17_formation_presort_needed_refuted : exists g g',
 Proof. exact ordered_presort_needed_proof. Qed.
 Print Assumptions C17_formation_presort_needed_refuted.
 
-(* the guard is needed (finding class same_product_equal_coordinates_member_order) *)
-Theorem C17_formation_members_same_product_refuted : exists g g',
-  Forall simple g /\ Permutation g g' /\ NoDup (map C05.Model.pid g) /\
-  C05.Model.ordered_list g <> C05.Model.ordered_list g'.
-Proof. exact ordered_same_product_refuted_proof. Qed.
-Print Assumptions C17_formation_members_same_product_refuted.
+(* repaired finding same_product_equal_coordinates_member_order: two protoclusters with the same product and
+   identical coordinates but different cores satisfy the guard of C17_formation_members_perm_partial and are listed in
+   the same order for both enumerations; the pre-sort by product alone (the code before the repair) exposed the order *)
+Theorem C17_formation_members_same_product :
+  Forall simple [w_pa'; w_pb'] /\ Permutation [w_pa'; w_pb'] [w_pb'; w_pa'] /\
+  pkey w_pa' = pkey w_pb' /\ C05.Model.pprod w_pa' = C05.Model.pprod w_pb' /\
+  (forall a b, In a [w_pa'; w_pb'] -> In b [w_pa'; w_pb'] -> pkey a = pkey b -> prekey a = prekey b -> a = b) /\
+  map C05.Model.pid (C05.Model.ordered_list [w_pa'; w_pb']) = [0; 1] /\
+  map C05.Model.pid (C05.Model.ordered_list [w_pb'; w_pa']) = [0; 1] /\
+  sort_by C05.Model.lt_pp (sort_by (fun a b => C05.Model.pprod a <? C05.Model.pprod b) [w_pa'; w_pb'])
+    <> sort_by C05.Model.lt_pp (sort_by (fun a b => C05.Model.pprod a <? C05.Model.pprod b) [w_pb'; w_pa']).
+Proof. exact ordered_same_product_proof. Qed.
+Print Assumptions C17_formation_members_same_product.
 
-(* whole formation: FALSE as it stands (finding class single_candidates_set_order) - SINGLE
-   candidates are created in the iteration order of set(unassigned); the model iterates sets in
-   ascending protocluster id, so the two numberings of the same three protoclusters are the two
-   possible orders: the candidate lists (kind, products of the members) differ *)
-Theorem C17_formation_perm_refuted :
+(* repaired finding single_candidates_set_order: SINGLE candidates are created in `_ordered` order of
+   set(unassigned); the two numberings of the same three protoclusters (the model iterates sets in ascending
+   protocluster id, so these are the two possible set orders) now give the same candidate list *)
+Theorem C17_formation_singles_witness :
   view (C05.Model.create_candidates [w_pa; w_pb; w_pc] None)
     = Ok [(C05.Model.K_NEIGHBOURING, [0; 1; 2]); (C05.Model.K_SINGLE, [0]); (C05.Model.K_SINGLE, [1]); (C05.Model.K_SINGLE, [2])] /\
   view (C05.Model.create_candidates [w_pa2; w_pb2; w_pc] None)
-    = Ok [(C05.Model.K_NEIGHBOURING, [0; 1; 2]); (C05.Model.K_SINGLE, [1]); (C05.Model.K_SINGLE, [0]); (C05.Model.K_SINGLE, [2])].
-Proof. exact singles_order_refuted_proof. Qed.
-Print Assumptions C17_formation_perm_refuted.
+    = Ok [(C05.Model.K_NEIGHBOURING, [0; 1; 2]); (C05.Model.K_SINGLE, [0]); (C05.Model.K_SINGLE, [1]); (C05.Model.K_SINGLE, [2])].
+Proof. exact singles_order_proof. Qed.
+Print Assumptions C17_formation_singles_witness.
+
+(* ... and in general the singles loop visits the same protoclusters in the same order for every enumeration of
+   set(unassigned) (under the guard of C17_formation_members_perm_partial).  The whole formation as one
+   permutation theorem is still not proved (other set iterations of the formation are modelled in ascending id). *)
+Theorem C17_formation_singles_perm : forall u u', Forall simple u -> Permutation u u' ->
+  (forall a b, In a u -> In b u -> pkey a = pkey b -> prekey a = prekey b -> a = b) ->
+  forall w ex, C05.Model.singles_go w ex (C05.Model.ordered_list u) = C05.Model.singles_go w ex (C05.Model.ordered_list u').
+Proof. exact singles_visit_perm_proof. Qed.
+Print Assumptions C17_formation_singles_perm.
 
 (* ---- Region.get_unique_protoclusters, origin-crossing branch (key includes the product): same
    list for every set order unless two protoclusters share (start, length, product) ... *)
@@ -121,23 +137,30 @@ Theorem C17_unique_crossing_documented_order : forall N o, doc_sorted true N (un
 Proof. exact unique_crossing_doc_sorted_proof. Qed.
 Print Assumptions C17_unique_crossing_documented_order.
 
-(* branch for regions that do not cross the origin (`sorted(clusters)`): same list for every set
-   order only if no two protoclusters share (start, length) ... *)
+(* branch for regions that do not cross the origin (pre-sort by (product, core_start, core_end), then
+   `sorted`): same list for every set order unless two protoclusters share (start, length) AND
+   (product, core start, core end) ... *)
 Theorem C17_unique_linear_perm : forall o o', Forall wf_u o -> Permutation o o' ->
-  (forall a b, In a o -> In b o -> ust a = ust b -> ulen a = ulen b -> a = b) ->
+  (forall a b, In a o -> In b o -> lin_key a = lin_key b -> upre_key a = upre_key b -> a = b) ->
   unique_linear o = unique_linear o'.
 Proof. exact unique_linear_perm_proof. Qed.
 Print Assumptions C17_unique_linear_perm.
 
-(* ... with identical coordinates and different products the set order comes out, and the
-   documented order (by product) is violated for one of the orders (finding class
-   unique_protoclusters_set_order) *)
-Theorem C17_unique_linear_refuted : exists o o',
-  Forall wf_u o /\ Permutation o o' /\ NoDup (map uid o) /\ NoDup (map uprod o) /\
-  map uid (unique_linear o) <> map uid (unique_linear o') /\
-  doc_sorted false 0 (unique_linear o) = true /\ doc_sorted false 0 (unique_linear o') = false.
-Proof. exact unique_linear_refuted_proof. Qed.
-Print Assumptions C17_unique_linear_refuted.
+(* ... and always in the documented order (start, decreasing size, product) - positive statement after the
+   repair of finding unique_protoclusters_set_order *)
+Theorem C17_unique_linear_documented_order : forall o, Forall wf_u o -> doc_sorted false 0 (unique_linear o) = true.
+Proof. exact unique_linear_doc_sorted_proof. Qed.
+Print Assumptions C17_unique_linear_documented_order.
+
+(* the former witness (identical coordinates, different products): both set orders give [a; b; c]; the code
+   before the repair (`sorted(clusters)`) followed the set order and violated the documented order for one of them *)
+Theorem C17_unique_linear_witness :
+  Forall wf_u [w_u1; w_u2; w_u3] /\ Permutation [w_u1; w_u2; w_u3] [w_u2; w_u1; w_u3] /\
+  map uid (unique_linear [w_u1; w_u2; w_u3]) = [1; 2; 3] /\ map uid (unique_linear [w_u2; w_u1; w_u3]) = [1; 2; 3] /\
+  map uid (unique_linear_unrepaired [w_u1; w_u2; w_u3]) <> map uid (unique_linear_unrepaired [w_u2; w_u1; w_u3]) /\
+  doc_sorted false 0 (unique_linear_unrepaired [w_u2; w_u1; w_u3]) = false.
+Proof. exact unique_linear_witness_proof. Qed.
+Print Assumptions C17_unique_linear_witness.
 
 (* ---- serialised sets of strings (definition_domains, enabled_types): `sorted(a_set)` depends on
    the set only; it lists exactly the members, once each, in strictly increasing string order *)
@@ -173,10 +196,10 @@ Theorem C17_pipeline_partial : forall neighbour table N c nb crossing RN
   Permutation hits hits' -> Permutation genes genes' -> Permutation group group' ->
   Permutation protos protos' -> (forall x, In x names <-> In x names') -> Permutation notes notes' ->
   Forall simple group ->
-  (forall a b, In a group -> In b group -> pkey a = pkey b -> C05.Model.pprod a = C05.Model.pprod b -> a = b) ->
+  (forall a b, In a group -> In b group -> pkey a = pkey b -> prekey a = prekey b -> a = b) ->
   (crossing = true -> forall a b, In a protos -> In b protos -> red_key RN a = red_key RN b -> a = b) ->
   (crossing = false -> Forall wf_u protos /\
-                       forall a b, In a protos -> In b protos -> ust a = ust b -> ulen a = ulen b -> a = b) ->
+                       forall a b, In a protos -> In b protos -> lin_key a = lin_key b -> upre_key a = upre_key b -> a = b) ->
   refine_o neighbour table hits = refine_o neighbour table hits' /\
   find_protoclusters_o N c nb genes = find_protoclusters_o N c nb genes' /\
   C05.Model.ordered_list group = C05.Model.ordered_list group' /\
@@ -201,19 +224,19 @@ Proof. vm_compute. reflexivity. Qed.
 Example C17_ex_members :
   Forall simple [w_pa; w_pb; w_pc] /\
   (forall a b, In a [w_pa; w_pb; w_pc] -> In b [w_pa; w_pb; w_pc] -> pkey a = pkey b ->
-               C05.Model.pprod a = C05.Model.pprod b -> a = b) /\
+               prekey a = prekey b -> a = b) /\
   map C05.Model.pid (C05.Model.ordered_list [w_pb; w_pc; w_pa]) = [0; 1; 2].
 Proof.
   split; [repeat constructor; eexists; eexists; eexists; (split; [reflexivity|lia])|].
   split; [|vm_compute; reflexivity].
   intros a b Ia Ib _ E. cbn in Ia, Ib.
-  destruct Ia as [<-|[<-|[<-|[]]]]; destruct Ib as [<-|[<-|[<-|[]]]]; try reflexivity; cbn in E; discriminate.
+  destruct Ia as [<-|[<-|[<-|[]]]]; destruct Ib as [<-|[<-|[<-|[]]]]; try reflexivity; vm_compute in E; discriminate.
 Qed.
 Example C17_ex_unique_crossing :
-  (forall a b, In a [mkU 0 900 100 200 1; mkU 1 900 100 200 0; mkU 2 50 300 250 0] ->
-               In b [mkU 0 900 100 200 1; mkU 1 900 100 200 0; mkU 2 50 300 250 0] ->
+  (forall a b, In a [mkU 0 900 100 200 1 900 100; mkU 1 900 100 200 0 900 100; mkU 2 50 300 250 0 50 300] ->
+               In b [mkU 0 900 100 200 1 900 100; mkU 1 900 100 200 0 900 100; mkU 2 50 300 250 0 50 300] ->
                red_key 1000 a = red_key 1000 b -> a = b) /\
-  map uid (unique_crossing 1000 [mkU 0 900 100 200 1; mkU 1 900 100 200 0; mkU 2 50 300 250 0]) = [1; 0; 2].
+  map uid (unique_crossing 1000 [mkU 0 900 100 200 1 900 100; mkU 1 900 100 200 0 900 100; mkU 2 50 300 250 0 50 300]) = [1; 0; 2].
 Proof.
   split; [|vm_compute; reflexivity].
   intros a b Ia Ib E. cbn in Ia, Ib.
@@ -221,12 +244,12 @@ Proof.
 Qed.
 Example C17_ex_unique_linear :
   Forall wf_u [w_u3; w_u1] /\
-  (forall a b, In a [w_u3; w_u1] -> In b [w_u3; w_u1] -> ust a = ust b -> ulen a = ulen b -> a = b) /\
+  (forall a b, In a [w_u3; w_u1] -> In b [w_u3; w_u1] -> lin_key a = lin_key b -> upre_key a = upre_key b -> a = b) /\
   map uid (unique_linear [w_u3; w_u1]) = [1; 3].
 Proof.
   split; [repeat constructor; cbn; lia|]. split; [|vm_compute; reflexivity].
   intros a b Ia Ib E _. cbn in Ia, Ib.
-  destruct Ia as [<-|[<-|[]]]; destruct Ib as [<-|[<-|[]]]; try reflexivity; cbn in E; discriminate.
+  destruct Ia as [<-|[<-|[]]]; destruct Ib as [<-|[<-|[]]]; try reflexivity; vm_compute in E; discriminate.
 Qed.
 (* "r10" < "r2" < "ra" and a duplicate *)
 Example C17_ex_strings :
